@@ -14,6 +14,16 @@ import selectors
 from typing import Any
 
 
+from vlib.runner import Violation
+
+
+class Livelock(Violation):
+    """The code under test keeps the loop busy for ever without time passing: a violation, not a harness error."""
+
+    def __init__(self, n: int) -> None:
+        super().__init__("livelock/loop-never-idle", f"the event loop did not become idle within {n} iterations at one instant of virtual time (busy loop in the code under test)")
+
+
 class Quiescent(BaseException):
     pass
 
@@ -87,7 +97,9 @@ class DetLoop(asyncio.SelectorEventLoop):
     def has_ready(self) -> bool:
         return bool(self._ready)
 
-    def run_until_idle(self, max_iters: int = 3000000) -> int:
+    max_iters = 3000000  # per call of run_until_idle; checks whose cases are small lower it (loop.max_iters = ...)
+
+    def run_until_idle(self, max_iters: int | None = None) -> int:
         """Iterate until no callback is ready, without letting virtual time move."""
         n = 0
         while True:
@@ -95,8 +107,8 @@ class DetLoop(asyncio.SelectorEventLoop):
             n += 1
             if not self._ready:
                 return n
-            if n >= max_iters:
-                raise RuntimeError("loop did not become idle (livelock?)")
+            if n >= (max_iters or self.max_iters):
+                raise Livelock(n)
 
     def next_timer(self) -> float | None:
         return min((h._when for h in self._scheduled if not h._cancelled), default=None)
